@@ -1,7 +1,7 @@
 #!/usr/bin/env python3
 """Writes one prompt per property for a seeding sub-agent (only the property text
 and the path of its own scratch worktree), as used for the two rounds recorded
-in DESIGN.md 8.4.  usage: mk_seed_prompts.py <outdir> [round2|round3|round4]"""
+in DESIGN.md 8.4.  usage: mk_seed_prompts.py <outdir> [round2|round3|round4|round5]"""
 import json, sys
 out = sys.argv[1]
 tmpl = open('/verif/tools/seed_prompt.tmpl').read().replace('/tmp/seed/', out.rstrip('/') + '/')
@@ -21,6 +21,12 @@ ADDITIONAL CONSTRAINT (fourth, independent round): three earlier rounds produced
 '''
 if len(sys.argv) > 2 and sys.argv[2] == 'round4':
     extra = extra4
+extra5 = '''
+
+ADDITIONAL CONSTRAINT (fifth, independent round): four earlier rounds have been through the functions named in the anchors, their helpers and the configuration paths, and automated differential checkers with random inputs and random combinations of the common options exist. This time start from the INPUT and OPTION space rather than from the code: pick a point of it that is legitimate for this property but unusual, and make a change that is wrong only there. Unusual inputs: an empty file, a file that is a single line without terminator, a line longer than 64 KiB or ending exactly at 65536 bytes, a character or code unit straddling the 8 KiB transcoding buffer, a path with spaces / non-UTF-8 bytes / a leading dash / trailing slash, a directory given twice, deep nesting, very many files in one directory, a file that is a FIFO or comes from stdin. Unusual options (use `rg --help` in the worktree for the full list): --max-columns with --max-columns-preview, --trim, --field-match-separator, --field-context-separator, --path-separator, --no-filename / --with-filename defaults for one file vs many, --sortr and --sort modified, --max-depth 0/1, -uuu, --one-file-system, --passthru with -v or -c, --stop-on-nonmatch, --line-buffered, --no-messages, --no-ignore-messages, --include-zero, --null with -c/-l, --iglob, --type-not with --type, --ignore-file with anchored patterns, --no-ignore-parent, -f FILE with empty lines, -e with an empty pattern, --dfa-size-limit / --regex-size-limit near their limit, --byte-offset with -o, --only-matching with context flags. Keep it a clean semantic violation of the property as stated (a wrong result a user could observe) with a deterministic demo.
+'''
+if len(sys.argv) > 2 and sys.argv[2] == 'round5':
+    extra = extra5
 for line in open('/verif/properties.jsonl'):
     p = json.loads(line)
     open('%s/%s.prompt.txt' % (out, p['id']), 'w').write(
